@@ -142,7 +142,7 @@ func cmdWalk(args []string) {
 		}
 	}
 	var mu sync.Mutex
-	var paths, steps int64
+	var paths, steps, withDelivery int64
 	var bad []pr.History
 	var wg sync.WaitGroup
 	sem := make(chan struct{}, 16)
@@ -183,8 +183,17 @@ func cmdWalk(args []string) {
 				break
 			}
 		}
+		dl := false
+		for _, st := range h.Steps {
+			if len(st.Dlv) > 0 {
+				dl = true
+			}
+		}
 		mu.Lock()
 		paths++
+		if dl {
+			withDelivery++
+		}
 		steps += lsteps
 		if mism && len(bad) < 30 {
 			h.ID = int(paths)
@@ -208,7 +217,7 @@ func cmdWalk(args []string) {
 	}
 	wg.Wait()
 	// shortest failing histories first
-	res := map[string]interface{}{"paths": paths, "steps": steps, "depth": *depth, "bad": bad, "nodes": len(g.Nodes)}
+	res := map[string]interface{}{"paths": paths, "with_delivery": withDelivery, "steps": steps, "depth": *depth, "bad": bad, "nodes": len(g.Nodes)}
 	if bad == nil {
 		res["bad"] = []pr.History{}
 	}
